@@ -428,6 +428,14 @@ def data_diff(lazy, eager):
         if lk < ek and all(lazy[k] == eager[k] for k in lk):
             return 'root-children-missing'
         if lk == ek:
+            def flat(d):
+                out = []
+                for k, v in d.items():
+                    if not k.startswith('@'):
+                        out += [json.dumps(x, sort_keys=True) for x in (v if isinstance(v, list) else [v])]
+                return sorted(out)
+            if flat(lazy) == flat(eager) and all(lazy[k] == eager[k] for k in lk if k.startswith('@')):
+                return 'children-permuted'     # same child values, attached to other same-level tags
             bad = sorted(k for k in lk if lazy[k] != eager[k])
             return 'child-content:' + ('attribute' if all(k.startswith('@') for k in bad) else 'element')
         return 'root-keys-differ'
